@@ -5,6 +5,7 @@ package core
 
 import (
 	"bufio"
+	"bytes"
 	"encoding/json"
 	"fmt"
 	"io"
@@ -183,10 +184,41 @@ type Out struct {
 
 func NewOut(w io.Writer) *Out { return &Out{w: bufio.NewWriterSize(w, 1<<20)} }
 
+// noNull replaces JSON null (a nil slice that some path of a family forgot to initialise - such paths are reached only when the
+// code under test misbehaves) by the empty list: TLC's Json module cannot read null, and a judge that cannot read the trace
+// ends the check with an infrastructure error instead of a verdict.
+func noNull(x any) any {
+	switch t := x.(type) {
+	case nil:
+		return []any{}
+	case map[string]any:
+		for k, v := range t {
+			t[k] = noNull(v)
+		}
+		return t
+	case []any:
+		for i, v := range t {
+			t[i] = noNull(v)
+		}
+		return t
+	}
+	return x
+}
+
 func (o *Out) Write(v any) error {
 	b, err := json.Marshal(v)
 	if err != nil {
 		return err
+	}
+	if bytes.Contains(b, []byte("null")) {
+		var x any
+		dec := json.NewDecoder(bytes.NewReader(b))
+		dec.UseNumber()
+		if err := dec.Decode(&x); err == nil {
+			if b2, err := json.Marshal(noNull(x)); err == nil {
+				b = b2
+			}
+		}
 	}
 	o.mu.Lock()
 	defer o.mu.Unlock()
